@@ -35,7 +35,8 @@ def gen_tree(rng, main_ignore, main_life, main_code):
     return mem
 
 
-WHAT = {"timeout": "the regress timeout expired", "term-at-fork": "SIGTERM arrived right after the step was forked",
+WHAT = {"term-at-zombie": "SIGTERM arrived after the step's main process had exited, before the runner reaped it (other members of the group still running)",
+        "timeout": "the regress timeout expired", "term-at-fork": "SIGTERM arrived right after the step was forked",
         "term-at-waitpid": "SIGTERM arrived just before the runner started waiting", "term-wait": "SIGTERM arrived while the step ran",
         "term-wait-ignore": "SIGTERM arrived while the step ran (main process ignores it)"}
 
@@ -58,7 +59,7 @@ def run_case(exe, proc, shim, root, case):
     os.makedirs(bdir)
     open(os.path.join(root, ".running"), "w").write(bdir + "\n")
     env = dict(os.environ, EXECDIR=os.path.join(root, "exec"))
-    if ev in ("term-at-waitpid", "term-at-fork"):
+    if ev in ("term-at-waitpid", "term-at-fork", "term-at-zombie"):
         env["LD_PRELOAD"] = shim
         env["C07_RAISE_AT"] = ev.split("-")[-1]
 
@@ -127,16 +128,20 @@ def run(ctx):
     distinct = set()
     reqs, wants, infos = [], [], []
     plan = [("none", 0), ("term-wait", 0), ("term-at-waitpid", 0), ("term-at-fork", 0), ("timeout", 0), ("term-wait-ignore", 0), ("term-wait", 1), ("timeout", 1),
-            ("none", 1), ("term-wait", 0), ("term-at-waitpid", 1), ("term-wait-ignore", 1)]
-    n = ctx.n(12, 96)
+            ("none", 1), ("term-wait", 0), ("term-at-waitpid", 1), ("term-wait-ignore", 1), ("term-at-zombie", 0)]
+    n = ctx.n(13, 104)
     cases = []
     for t in range(n):
         ev, inherit = plan[t % len(plan)]
         main_ignore = ev == "term-wait-ignore"
-        main_life = 400 if ev == "none" else (9000 if main_ignore else 3000)
+        main_life = 400 if ev == "none" else 300 if ev == "term-at-zombie" else (9000 if main_ignore else 3000)
         main_code = rng.choice([0, 0, 3, 7])
+        mem_ = gen_tree(rng, main_ignore, main_life, main_code)
+        if ev == "term-at-zombie":
+            # the main process is gone when the request arrives; a member with the default disposition is not
+            mem_.append((len(mem_), 0, 0, 9000, 0, 0))
         cases.append(dict(ev=ev, inherit=inherit, main_ignore=main_ignore, main_life=main_life, main_code=main_code, offset=rng.choice([0.05, 0.2, 0.45]),
-                          mem=gen_tree(rng, main_ignore, main_life, main_code)))
+                          mem=mem_))
     from concurrent.futures import ThreadPoolExecutor
     with ThreadPoolExecutor(max_workers=6) as ex:
         results = list(ex.map(lambda ic: run_case(exe, proc, shim, os.path.join(ctx.scratch, "c07-%d" % ic[0]), ic[1]), enumerate(cases)))
@@ -161,7 +166,7 @@ def run(ctx):
                 ctx.violation("%s: exit %d, expected 124" % (what, rc), info)
             if "term" not in acts and (rc is None or rc >= 0):
                 ctx.violation("%s: the process group was not signalled%s" % (what, " and the step ran to completion" if done else ""), info)
-            if done and ev != "term-wait-ignore":
+            if done and ev not in ("term-wait-ignore", "term-at-zombie"):
                 ctx.violation("%s: the step's main process ran to completion (%.1fs)" % (what, res["wall"]), info)
             if res["main_alive"]:
                 ctx.violation("%s: the runner exited before the step's main process was gone" % what, info)
@@ -170,6 +175,13 @@ def run(ctx):
             if main_ignore and "kill" not in acts:
                 ctx.violation("%s: no escalation to SIGKILL" % what, info)
         # ---- the model
+        if ev == "term-at-zombie":
+            # the request arrives in the iteration whose waitpid reaps the main process (Env.late)
+            kz = case["main_life"] // 100 + 1
+            reqs.append("runner 100000 - %d:e%d 0:s15 0:s9 %d:term" % (kz, main_code, kz))
+            wants.append("%s reap%s" % (rc, ",termlate" if "term" in acts else ""))
+            infos.append(info)
+            continue
         k = {"term-wait": 3, "term-wait-ignore": 3, "term-at-fork": 0, "term-at-waitpid": 0, "timeout": 10}.get(ev)
         sig = "-" if k is None else "%d:%s" % (k, "alrm" if ev == "timeout" else "term")
         reqs.append("runner 100000 %s %d:e%d %s 0:s9" % (sig, case["main_life"] // 100 + 1, main_code, "-" if main_ignore else "0:s15"))
